@@ -64,6 +64,7 @@ theorem chain_addType {d : ClassDiagram} {t : DataType} (chain : DtChainOk d.dts
 
 theorem xedit_commutes_all {d : ClassDiagram} (xwf : XWF d) (e : XEdit) (ok : XEditOk d e) (comp : Nat) :
     xsdSpec (applyXEdit e d) comp = specEdit (xresolve d comp e) (xsdSpec d comp) := by
+  rw [xsdSpec_chained xwf.noLoose, xsdSpec_chained (by rw [applyXEdit_loose]; exact xwf.noLoose)]
   cases e with
   | renameAttr c a new => exact xrename_commutes xwf.wf c a new comp
   | retypeAttr c a dt => exact xretype_commutes xwf.wf c a dt comp ok
@@ -77,9 +78,9 @@ theorem applyXEdit_xwf {d : ClassDiagram} (xwf : XWF d) (e : XEdit) (ok : XEditO
   have wf := xwf.wf
   cases e with
   | renameAttr c a new =>
-    exact ⟨applyEdit_wf wf (.renameAttr c a new) ok, xwf.dtIds, xwf.dtNames, xwf.tree, xwf.chain⟩
+    exact ⟨applyEdit_wf wf (.renameAttr c a new) ok, xwf.dtIds, xwf.dtNames, xwf.tree, xwf.chain, xwf.noLoose⟩
   | retypeAttr c a dt =>
-    refine ⟨?_, xwf.dtIds, xwf.dtNames, xwf.tree, xwf.chain⟩
+    refine ⟨?_, xwf.dtIds, xwf.dtNames, xwf.tree, xwf.chain, xwf.noLoose⟩
     show WF { d with classes := d.classes.map (rtG c a dt) }
     apply wf_mapClasses wf rtG_keepsId rtG_kl
     · intro k hk
@@ -97,7 +98,7 @@ theorem applyXEdit_xwf {d : ClassDiagram} (xwf : XWF d) (e : XEdit) (ok : XEditO
         rw [this]; exact wf.attrNames k hk
       · exact wf.attrNames k hk
   | addAttr c x =>
-    refine ⟨?_, xwf.dtIds, xwf.dtNames, xwf.tree, xwf.chain⟩
+    refine ⟨?_, xwf.dtIds, xwf.dtNames, xwf.tree, xwf.chain, xwf.noLoose⟩
     show WF { d with classes := d.classes.map (adG c x) }
     apply wf_mapClasses wf adG_keepsId adG_kl
     · intro k hk
@@ -131,7 +132,7 @@ theorem applyXEdit_xwf {d : ClassDiagram} (xwf : XWF d) (e : XEdit) (ok : XEditO
         exact (ok.2 k hfc).2 y hy
       · exact wf.attrNames k hk
   | addEnum t name =>
-    refine ⟨⟨wf.clsIds, wf.kls, wf.attrIds, wf.attrNames, wf.relIds, wf.relNumbs⟩, ?_, ?_, xwf.tree, chain_enG xwf.chain⟩
+    refine ⟨⟨wf.clsIds, wf.kls, wf.attrIds, wf.attrNames, wf.relIds, wf.relNumbs⟩, ?_, ?_, xwf.tree, chain_enG xwf.chain, xwf.noLoose⟩
     · show ((d.dts.map (enG t (fun es => es ++ [name]))).map (·.id)).Nodup
       simp only [List.map_map]
       have : ((fun (x : DataType) => x.id) ∘ enG t (fun es => es ++ [name])) = fun x => x.id := by
@@ -143,7 +144,7 @@ theorem applyXEdit_xwf {d : ClassDiagram} (xwf : XWF d) (e : XEdit) (ok : XEditO
         funext x; exact enG_name x
       rw [this]; exact xwf.dtNames
   | permEnums t perm =>
-    refine ⟨⟨wf.clsIds, wf.kls, wf.attrIds, wf.attrNames, wf.relIds, wf.relNumbs⟩, ?_, ?_, xwf.tree, chain_enG xwf.chain⟩
+    refine ⟨⟨wf.clsIds, wf.kls, wf.attrIds, wf.attrNames, wf.relIds, wf.relNumbs⟩, ?_, ?_, xwf.tree, chain_enG xwf.chain, xwf.noLoose⟩
     · show ((d.dts.map (enG t (permute perm))).map (·.id)).Nodup
       simp only [List.map_map]
       have : ((fun (x : DataType) => x.id) ∘ enG t (permute perm)) = fun x => x.id := by
@@ -155,7 +156,7 @@ theorem applyXEdit_xwf {d : ClassDiagram} (xwf : XWF d) (e : XEdit) (ok : XEditO
         funext x; exact enG_name x
       rw [this]; exact xwf.dtNames
   | addType t =>
-    refine ⟨⟨wf.clsIds, wf.kls, wf.attrIds, wf.attrNames, wf.relIds, wf.relNumbs⟩, ?_, ?_, xwf.tree, chain_addType xwf.chain ok.1⟩
+    refine ⟨⟨wf.clsIds, wf.kls, wf.attrIds, wf.attrNames, wf.relIds, wf.relNumbs⟩, ?_, ?_, xwf.tree, chain_addType xwf.chain ok.1, xwf.noLoose⟩
     · show ((d.dts ++ [t]).map (·.id)).Nodup
       simp only [List.map_append, List.map_cons, List.map_nil]
       apply List.nodup_append.mpr
@@ -175,7 +176,7 @@ theorem applyXEdit_xwf {d : ClassDiagram} (xwf : XWF d) (e : XEdit) (ok : XEditO
       obtain ⟨y, hy, rfl⟩ := List.mem_map.mp hi
       exact ok.2 y hy
   | moveClass c p =>
-    exact ⟨applyEdit_wf wf (.moveClass c p) trivial, xwf.dtIds, xwf.dtNames, xwf.tree, xwf.chain⟩
+    exact ⟨applyEdit_wf wf (.moveClass c p) trivial, xwf.dtIds, xwf.dtNames, xwf.tree, xwf.chain, xwf.noLoose⟩
 
 def XScriptOk : ClassDiagram → List XEdit → Prop
   | _, [] => True
